@@ -73,7 +73,9 @@ pub fn gen_case(rng: &mut Rng, faults: bool) -> CliCase {
             OutState::InMissingDir
         }
         90..=93 => OutState::ExistingLikeExpected(rng.pick(&["\n", "", "\n\n", " ", "\t\n"]).to_string()),
-        94..=96 => OutState::DevNull,
+        94..=95 => OutState::DevNull,
+        96 => OutState::DanglingSymlink,
+        97 => OutState::ExistingOtherSort,
         _ => OutState::IsDirectory,
     };
     let serde_xml_rs = rng.pct(40);
@@ -307,6 +309,21 @@ pub fn exec_case(case: &CliCase, ctr: &mut Ctr) -> Result<Exec, String> {
         Err(_) => return Ok(super::skip("entropy_sensitive_rendering")),
     };
     let sb = sandbox_dir();
+    // "the other sort option's output is already there": resolve into a concrete existing file
+    let resolved;
+    let case = if matches!(case.output, OutState::ExistingOtherSort) {
+        let mut other = case.clone();
+        other.by_name = !case.by_name;
+        let mut c2 = case.clone();
+        c2.output = match expected_text(&other) {
+            Ok(Some(t)) => OutState::Existing(t.into_bytes()),
+            _ => OutState::Existing(b"// older, unrelated content\n".to_vec()),
+        };
+        resolved = c2;
+        &resolved
+    } else {
+        case
+    };
     let out = crate::cli::run_cli_with(case, case.entropy, &sb, expected.as_deref())?;
     let f = &out.fired;
     if out.report.is_empty() {
@@ -401,6 +418,8 @@ pub fn exec_case(case: &CliCase, ctr: &mut Ctr) -> Result<Exec, String> {
         OutState::IsDirectory => 4,
         OutState::ExistingLikeExpected(_) => 5,
         OutState::DevNull => 6,
+        OutState::DanglingSymlink => 7,
+        OutState::ExistingOtherSort => 8,
     });
     env.u64(expected.is_some() as u64);
     Ok(Exec { violation, trace: tr.0, fingerprint: fp.0, nontrivial: fired_any || failure_path, sim_steps: f.calls, discarded: None, shape: 0, env_sig: env.0 })
